@@ -22,6 +22,8 @@ CHECKS = {
     "C09": ("vf.checks_wire", "c09"),
     "C10": ("vf.checks_msg", "c10"),
     "C11": ("vf.checks_msg", "c11"),
+    "C12": ("vf.checks_comp", "c12"),
+    "C13": ("vf.checks_comp", "c13"),
     "C14": ("vf.checks_comp", "c14"),
     "C15": ("vf.checks_comp", "c15"),
     "C16": ("vf.checks_comp", "c16"),
